@@ -215,7 +215,13 @@ func cmdCheck(args []string) int {
 				violations++
 				rp := writeReplay(*prop, r.Key, "engine", r.Err, nil)
 				fmt.Printf("ENGINE-ERROR %s: %s\n", r.Key, r.Err)
-				fmt.Printf("VIOLATION property=%s replay=%s no-failing-input-found\n", *prop, rp)
+				// the function could not be brought under its contract (restructured code, unknown
+				// identifier, unsupported construct): undecided by the verifier, so ask the real code
+				suffix := " no-failing-input-found"
+				if runReplayHarness(eng, *prop, r, nil, rp) {
+					suffix = ""
+				}
+				fmt.Printf("VIOLATION property=%s replay=%s%s\n", *prop, rp, suffix)
 			}
 		}
 		for _, o := range r.Obls {
